@@ -45,6 +45,8 @@ def _c11(tier, seed):
     jobs = J('c11.cpp', 'optim', n=14, extra_src=['guardalloc.cpp'], env={'VF_GUARD': 'after'}, crash_is_violation=True)
     jobs += J('c11.cpp', 'debug', n=6 if tier == 'quick' else 16, extra_src=['guardalloc.cpp'], env={'VF_GUARD': 'before'}, crash_is_violation=True,
               args=(['nbasis=32'] if tier == 'quick' else ['nbasis=256']))
+    # the products must also be exact when two threads multiply unrelated polynomials at the same time: all schedules with <= 2 preemptions
+    jobs += J('c06.cpp', 'optim', n=1, args=['part=sched', 'scenario=K-', 'threads=' + ('2' if tier == 'quick' else '3')], ldflags='-ldl')
     return jobs
 PROPS['C11'] = dict(
     level='exploration',
@@ -302,7 +304,7 @@ PROPS['C15'] = dict(
 def _c06(tier, seed):
     jobs = []
     for be in BE:
-        jobs += J('c06.cpp', 'optim', be, n=5, args=['part=sched'] + (['threads=2'] if tier == 'quick' else ['threads=2', 'tiny_n=2']), ldflags='-ldl', deadline=(100 if tier == 'quick' else 1500))
+        jobs += J('c06.cpp', 'optim', be, n=7, args=['part=sched'] + (['threads=2'] if tier == 'quick' else ['threads=2', 'tiny_n=2']), ldflags='-ldl', deadline=(100 if tier == 'quick' else 1500))
     jobs += J('c06.cpp', 'optim', 'spqlios-fma', n=8, args=['part=hist'], ldflags='-ldl')
     if tier == 'thorough':
         for be in ['spqlios-fma', 'fftw', 'nayuki-portable']:
@@ -316,7 +318,7 @@ PROPS['C06'] = dict(
          'pthread_mutex_lock/unlock (blocking modelled), decomposition and Karatsuba entry, thread exit (thread_local destructors). oracles: every thread output byte-identical to its sequential reference, no deadlock, '
          'no two threads at FFTW planner calls without a common lock. histories: every sequence of <= depth operations over a 14-operation alphabet on a fresh thread, then a probe (3 gates): bytes == reference. '
          'non-trivial = schedule with at least one preemption / non-empty history',
-    bounds={'quick': '2 threads, <= 2 preemptions, 5 scenarios (FFT products, external products with shared key, gates with shared cloud key (n=1), gate vs key generation, Karatsuba products) x 5 back-ends; histories depth 2 (211 sequences)',
+    bounds={'quick': '2 threads, <= 2 preemptions, 7 scenarios (FFT products, external products with shared key, gates with shared cloud key (n=1), gate vs key generation, Karatsuba products, thread churn with 31 and 63 short-lived threads between two live ones) x 5 back-ends; histories depth 2 (211 sequences)',
             'thorough': '+ 3 threads (3 back-ends), tiny key n=2, histories depth 3'},
     assumptions=['preemption happens only at the interposed points (the code has no atomics; no memory-ordering effects below that granularity are modelled)',
                  'data races invisible to the scheduler are the business of the free-running TSan pass (supporting evidence, blind to the assembly kernels)'],
